@@ -496,8 +496,9 @@ def clear_after_set(ix, R):
                 cleared = set()
                 later = False
                 for s in walk_no_nested(f.node):
-                    if isinstance(s, ast.Call) and isinstance(s.func, ast.Attribute) and s.func.attr == 'clear_cache' \
-                            and s.lineno >= node.lineno:
+                    # (clear_cache() only empties the dictionaries - nothing is loaded until the next request - so it does
+                    #  not matter whether it runs just before or just after the key is written, as long as it runs)
+                    if isinstance(s, ast.Call) and isinstance(s.func, ast.Attribute) and s.func.attr == 'clear_cache':
                         tgt = unparse(s.func.value)
                         if tgt == 'self' and f.cls is not None:
                             cleared.add(f.cls.name)
